@@ -8,12 +8,16 @@ Proved here, for the model of /repo as it is now:
  * `get_bindings`: start / end are the line numbers of the first / last captured `POS` (or of the
    paired `POS`), so a binding is a valid range iff those captured lines are ordered and in range.
 Only exercised by harness/c02.py (not theorems): the 171 other features and the SQL-derived spans,
-CPython's line numbers, `meta/program` (see DESIGN §5/C02).
+CPython's line numbers (see DESIGN §5/C02).
+At the end of the file (tree model of C15/C01, `Paroxy.Flat`): `C02_node_span`, `C02_whole_span`,
+`C02_meta_program_once`.
 -/
 import Paroxy.Proofs.HintsSpans
 import Paroxy.Proofs.HintsPrepare
 import Paroxy.Proofs.HintsAllTexts
 import Paroxy.Model.ParseGlue
+import Paroxy.Proofs.NodeSpan
+import Paroxy.Proofs.FlatEntries
 namespace Paroxy.Props.C02
 open Paroxy Paroxy.Hints Paroxy.Glue
 
@@ -180,5 +184,90 @@ example : getBindings "for".toList "1:1-".toList ["1:1-0-0-1-".toList, "1:1-0-0-
 /-- A `POS` that is not `line:path` (finding 17: a `:` inside a captured string) is a `ValueError`,
 not a span. -/
 example : getBindings "x".toList "1:a:b".toList [] [] = .error .valueError := by decide
+
+end Paroxy.Props.C02
+
+/-! ## Clauses that live on the tree model of C15 / C01 (`Paroxy.Flat`)
+
+`dumpP h [] [] t` is the flat AST of a (tweaked) tree `t`; `nodeMatches` / `wholeSpanMatch?` are the hand
+matchers of the `node` / `whole_span` patterns (validated against the real engine by harness/c01.py and
+harness/c02_tree.py); `PreorderMonotone`: line numbers never decrease along the pre-order enumeration of
+the positioned nodes (checked on every real tree by harness/c02_tree.py; it fails for a decorated
+definition whose decorator is dumped after the body — repaired by d0d94f6 — and for nothing else seen). -/
+namespace Paroxy.Props.C02
+open Paroxy.Flat
+
+/-- **C02 (node spans).** On the dump of a well-formed tree (`treeOk2`), every match of the `node`
+feature whose type is a positioned type captures the position of a node of the tree — its own — and
+optionally a second one, the position of a node that comes **later in pre-order**; when line numbers
+are non-decreasing in pre-order (`PreorderMonotone`), its line is not smaller, so the span bound by
+`get_bindings` satisfies `start ≤ end`. -/
+theorem C02_node_span (t0 t : Val) (hwf : treeOk2 t = true) (hmono : PreorderMonotone (entries [] [] t)) :
+    ∀ m ∈ nodeMatches (dumpP (hashFn t0) [] [] t), (posTypes t).contains m.1 = true →
+      GoodSpan m ∧ ∀ b, nodeBinding? m = some b → b.2.start ≤ b.2.stop := by
+  intro m hm hP
+  have hall : ∀ e ∈ entries [] [] t, e.ok2 = true ∧ e.typed (posTypes t).contains = true := by
+    intro e he
+    have := List.all_eq_true.mp hwf e he
+    simpa using this
+  have hd : dumpP (hashFn t0) [] [] t = (entries [] [] t).flatMap (Entry.lines (hashFn t0)) :=
+    dumpP_eq_entries (hashFn t0) [] [] t
+  rw [hd] at hm
+  have hg := nodeMatches_entries_span (hashFn t0) (eq_not_mem_hashFn t0) (hashNoNewline_hashFn t0) _
+    (entries [] [] t) (fun e he => (hall e he).1) (fun e he => (hall e he).2) hmono m hm hP
+  exact ⟨hg, fun b hb => goodSpan_binding hg hb⟩
+
+/-- Non-vacuity: a two-line module `if x:` / `    pass` (already tweaked). -/
+def sampleIf : Val :=
+  .node "Module".toList false [] none
+    [("body".toList, .list false
+      [.node "If".toList false [] (some 1)
+        [("test".toList, .node "Name".toList true "Name(id='x')".toList (some 1) [("id".toList, .scalar "x".toList .str)]),
+         ("body".toList, .list false [.node "Pass".toList false [] (some 2) []])]])]
+
+example : treeOk2 sampleIf = true ∧ decide (PreorderMonotone (entries [] [] sampleIf)) = true := by decide
+example : (nodeMatches (dumpP (hashFn sampleIf) [] [] sampleIf)).map (·.2) =
+    [["1:1-".toList, "2:1-1-1-".toList], ["1:1-0-".toList], ["2:1-1-1-".toList]] := by decide
+
+/-- **C02 (whole span).** When `whole_span` captures `<line>:` (first position, path left out) and the
+position text of a node, `pos_to_span` yields exactly these two line numbers, so that the span is a
+valid order `start ≤ end` iff the first line is not after the last one (which `PreorderMonotone` gives
+when the two captures are the first and the last positioned node of the dump — checked on every real
+tree by the harness). -/
+theorem C02_whole_span (n n' : Nat) (a' : List Nat) :
+    ∃ s, posToSpan? [dec n ++ [':'], posText n' a'] = some s ∧ s.start = n ∧ s.stop = n' ∧
+      (s.start ≤ s.stop ↔ n ≤ n') := by
+  refine ⟨⟨n, n', []⟩, posToSpan_whole n n' a', rfl, rfl, Iff.rfl⟩
+
+/-- **C02 (`meta/program` once).** For every text, `whole_span` yields at most one occurrence, and
+exactly one as soon as the pattern matches (the match is anchored by `\A`); its label is `whole_span`
+or `whole_span:<digits>`, both translated by the row `meta/program <tab> whole_span(:.+)?`. -/
+theorem C02_meta_program_once (ls : List (List Char)) (bs : List (List Char × SpanP))
+    (h : wholeSpanBindings? ls = some bs) :
+    bs.length ≤ 1 ∧ (bs.length = 1 ↔ (wholeSpanMatch? ls).isSome = true) ∧
+      ∀ b ∈ bs, b.1 = "whole_span".toList ∨ ∃ d, b.1 = "whole_span:".toList ++ d := by
+  unfold wholeSpanBindings? at h
+  split at h
+  · rename_i hm
+    simp only [Option.some.injEq] at h
+    subst h
+    simp [hm]
+  · rename_i pos hm
+    cases hp : posToSpan? pos with
+    | none => simp [hp] at h
+    | some s =>
+      simp only [hp, Option.map_some, Option.some.injEq] at h
+      subst h
+      simp [hm]
+  · rename_i pos d rest hm
+    cases hp : posToSpan? pos with
+    | none => simp [hp] at h
+    | some s =>
+      simp only [hp, Option.map_some, Option.some.injEq] at h
+      subst h
+      simp [hm]
+
+example : wholeSpanBindings? (dumpP (hashFn sampleIf) [] [] sampleIf) =
+    some [("whole_span:2".toList, ⟨1, 2, []⟩)] := by decide
 
 end Paroxy.Props.C02
